@@ -76,6 +76,14 @@ def space(tier):
             for w in WIDTHS if (pm, pn, pk).count((2, 8)) >= 1 or tier == "thorough" else WIDTHS[:2]:
                 for tiled in (True, False):
                     cases.append(("mm", (pm, pn, pk), order, w, tiled))
+    # an inner (innermost-indexing) iterator of bound 1 on a dimension of size > 1 (pointwise / 1x1 kernels): the innermost tile has bound 1
+    for sub in range(1, 8):
+        for unit in ((2, 1), (3, 1)):
+            ps = tuple(unit if sub >> d & 1 else (2, 8) for d in range(3))
+            for order in itertools.permutations(range(3)):
+                for w in WIDTHS[:2] if tier == "quick" else WIDTHS:
+                    for tiled in (True, False):
+                        cases.append(("mm", ps, order, w, tiled))
     for k in (1, 2, 3) if tier == "quick" else (1, 2, 3, 4, 5, 7):
         for oo in (1, 2, 4) if tier == "quick" else (1, 2, 3, 4, 5):
             for w in (8, 32, 64) if tier == "quick" else (8, 16, 32, 64):
